@@ -3,8 +3,19 @@
 package pppoe
 
 import (
+	"context"
 	"net"
+	"sync"
+	"sync/atomic"
 	"testing"
+	"time"
+
+	"github.com/google/gopacket/layers"
+	"github.com/veesix-networks/osvbng/pkg/allocator"
+	"github.com/veesix-networks/osvbng/pkg/config/ip"
+	"github.com/veesix-networks/osvbng/pkg/dhcp"
+	"github.com/veesix-networks/osvbng/pkg/dhcp6"
+	"github.com/veesix-networks/osvbng/pkg/provider"
 
 	"github.com/veesix-networks/osvbng/pkg/aaa"
 	"github.com/veesix-networks/osvbng/pkg/component"
@@ -17,11 +28,24 @@ import (
 )
 
 type c07Bus struct {
+	mu      sync.Mutex
 	aaaReqs int
+	egress  int
 	last    *events.AAARequestEvent
 }
 
+func (b *c07Bus) egressCount() int {
+	b.mu.Lock()
+	defer b.mu.Unlock()
+	return b.egress
+}
+
 func (b *c07Bus) Publish(topic string, ev events.Event) {
+	b.mu.Lock()
+	defer b.mu.Unlock()
+	if topic == events.TopicEgress {
+		b.egress++
+	}
 	if topic == events.TopicAAARequest {
 		b.aaaReqs++
 		if r, ok := ev.Data.(*events.AAARequestEvent); ok {
@@ -49,6 +73,24 @@ func (f *c07CfgMgr) LookupSubscriberGroup(svlan, cvlan uint16) (subscriber.Group
 }
 
 func c07Session(phase ppp.Phase) (*SessionState, *c07Bus) {
+	c, bus := c07Component()
+	return c07SessionOn(c, "s1", 0x97, phase), bus
+}
+
+func c07SessionOn(c *Component, id string, macLast byte, phase ppp.Phase) *SessionState {
+	s := &SessionState{
+		component:    c,
+		SessionID:    id,
+		MAC:          net.HardwareAddr{0xaa, 0x42, 0xa1, 0x0a, 0x54, macLast},
+		OuterVLAN:    100,
+		EncapIfIndex: 10,
+		Phase:        phase,
+	}
+	s.initPPP()
+	return s
+}
+
+func c07Component() (*Component, *c07Bus) {
 	ifMgr := ifmgr.New()
 	ifMgr.Add(&ifmgr.Interface{SwIfIndex: 10, SupSwIfIndex: 2, Name: "TenGigE0/0.100", Type: ifmgr.IfTypeSub, OuterVlanID: 100})
 	ifMgr.Add(&ifmgr.Interface{SwIfIndex: 2, Name: "TenGigE0/0", Type: ifmgr.IfTypeHardware, MAC: []byte{0x52, 0x54, 0x00, 0x11, 0x22, 0x33}})
@@ -60,16 +102,134 @@ func c07Session(phase ppp.Phase) (*SessionState, *c07Bus) {
 		ifMgr:    ifMgr,
 		cfgMgr:   &c07CfgMgr{cfg: &config.Config{}},
 	}
-	s := &SessionState{
-		component:    c,
-		SessionID:    "s1",
-		MAC:          net.HardwareAddr{0xaa, 0x42, 0xa1, 0x0a, 0x54, 0x97},
-		OuterVLAN:    100,
-		EncapIfIndex: 10,
-		Phase:        phase,
+	return c, bus
+}
+
+// ---- backlog / wedge scenarios: bounded worker pools and hand-off queues on the receive path ----
+
+const c07CallWatchdog = 1500 * time.Millisecond
+
+// c07GatedProvider is a DHCPv6 provider whose upstream does not answer until the harness opens the gate.
+type c07GatedProvider struct {
+	entered atomic.Int64
+	gate    chan struct{}
+}
+
+func (p *c07GatedProvider) Info() provider.Info { return provider.Info{Name: "c07-gated"} }
+func (p *c07GatedProvider) HandlePacket(_ context.Context, pkt *dhcp6.Packet) (*dhcp6.Packet, error) {
+	p.entered.Add(1)
+	<-p.gate
+	return &dhcp6.Packet{Raw: []byte{byte(dhcp6.MsgTypeReply), pkt.Raw[1], pkt.Raw[2], pkt.Raw[3]}}, nil
+}
+func (p *c07GatedProvider) ReleaseLease([]byte) {}
+
+func c07Deliver(s *SessionState, proto uint16, payload []byte) bool {
+	ok := c07Returns(c07CallWatchdog, func() {
+		_ = s.handlePPP(&layers.PPP{PPPType: layers.PPPType(proto), BaseLayer: layers.BaseLayer{Payload: payload}})
+	})
+	if !ok {
+		c07Hangs++
 	}
-	s.initPPP()
-	return s, bus
+	return ok
+}
+
+// c07EchoAnswered: the session still answers an LCP Echo-Request (one more egress frame).
+func c07EchoAnswered(s *SessionState, bus *c07Bus) bool {
+	echo := []byte{ppp.EchoReq, 1, 0, 8, 1, 2, 3, 4}
+	before := bus.egressCount()
+	if !c07Returns(c07CallWatchdog, func() {
+		_ = s.handlePPP(&layers.PPP{PPPType: layers.PPPType(ppp.ProtoLCP), BaseLayer: layers.BaseLayer{Payload: echo}})
+	}) {
+		return false
+	}
+	return bus.egressCount() == before+1
+}
+
+func c07OpenV6Session(c *Component, k int) *SessionState {
+	s := c07SessionOn(c, "s"+c07U(uint64(k)), byte(0x10+k), ppp.PhaseOpen)
+	s.AllocCtx = &allocator.Context{IPv6ProfileName: "v6"}
+	s.lcp.FSM().Restore()
+	s.ipv6cp.FSM().Restore()
+	s.ipv6cpOpen = true
+	return s
+}
+
+// bkdhcp6 <N>,<sessions>,<msgtype>: N well-formed in-band DHCPv6 messages (PPP 0x0057 / IPv6 / UDP 546->547) on open
+// sessions while the DHCPv6 provider does not answer.  Prints: returned accepted echo drained.
+func c07BacklogDHCPv6(n []uint64) string {
+	N, S, mt := int(c07Num(n, 0)), int(c07Num(n, 1)), byte(c07Num(n, 2))
+	if S < 1 {
+		S = 1
+	}
+	c, bus := c07Component()
+	cfg, _ := c.cfgMgr.GetRunning()
+	cfg.IPv6Profiles = map[string]*ip.IPv6Profile{"v6": {DHCPv6: &ip.IPv6DHCPv6Options{Mode: "relay"}}}
+	gp := &c07GatedProvider{gate: make(chan struct{})}
+	c.dhcp6Providers = map[string]dhcp6.DHCPProvider{"relay": gp}
+	const workers = 16 // New() in component.go
+	c.dhcp6Sem = make(chan struct{}, workers)
+	var sess []*SessionState
+	for k := 0; k < S; k++ {
+		sess = append(sess, c07OpenV6Session(c, k))
+	}
+	defer func() {
+		for _, s := range sess {
+			s.lcp.FSM().Kill()
+			s.ipcp.FSM().Kill()
+			s.ipv6cp.FSM().Kill()
+		}
+	}()
+	returned := 0
+	for i := 0; i < N; i++ {
+		s := sess[i%S]
+		duid := []byte{0x00, 0x03, 0x00, 0x01, 0xaa, 0x42, 0xa1, 0x0a, 0x54, byte(0x10 + i%S)}
+		req := []byte{mt, 0x12, byte(i >> 8), byte(i), 0x00, byte(dhcp6.OptClientID), 0x00, byte(len(duid))}
+		req = append(req, duid...)
+		frame := dhcp.BuildIPv6UDPFrame(net.ParseIP("fe80::a842:a1ff:fe0a:5497"), net.ParseIP("ff02::1:2"), 546, 547, req)
+		if !c07Deliver(s, ppp.ProtoIPv6, frame) {
+			break
+		}
+		returned++
+	}
+	// let the dispatched workers reach the provider
+	deadline := time.Now().Add(c07CallWatchdog)
+	for int(gp.entered.Load()) != len(c.dhcp6Sem) && time.Now().Before(deadline) {
+		time.Sleep(2 * time.Millisecond)
+	}
+	accepted := int(gp.entered.Load())
+	echo := c07EchoAnswered(sess[0], bus)
+	before := bus.egressCount()
+	close(gp.gate)
+	deadline = time.Now().Add(2 * c07CallWatchdog)
+	for (len(c.dhcp6Sem) != 0 || bus.egressCount() != before+accepted) && time.Now().Before(deadline) {
+		time.Sleep(2 * time.Millisecond)
+	}
+	drained := len(c.dhcp6Sem) == 0 && bus.egressCount() == before+accepted
+	return c07Ok(c07U(uint64(returned)), c07U(uint64(accepted)), c07Bool(echo), c07Bool(drained))
+}
+
+// bkrakick <N>,<K>: N IPv6CP-up events (the FSM's layer-up callback, run under the session lock) while nobody
+// drains the K-slot RA kick queue.
+func c07BacklogRAKick(n []uint64) string {
+	N, K := int(c07Num(n, 0)), int(c07Num(n, 1))
+	c, bus := c07Component()
+	c.raKicks = make(chan string, K)
+	s := c07OpenV6Session(c, 0)
+	defer func() { s.lcp.FSM().Kill(); s.ipcp.FSM().Kill(); s.ipv6cp.FSM().Kill() }()
+	returned := 0
+	for i := 0; i < N; i++ {
+		if !c07Returns(c07CallWatchdog, func() { s.mu.Lock(); defer s.mu.Unlock(); s.onIPv6CPUp() }) {
+			c07Hangs++
+			break
+		}
+		returned++
+	}
+	accepted := len(c.raKicks)
+	echo := c07EchoAnswered(s, bus)
+	for k := 0; k < accepted; k++ {
+		<-c.raKicks
+	}
+	return c07Ok(c07U(uint64(returned)), c07U(uint64(accepted)), c07Bool(echo), c07Bool(len(c.raKicks) == 0))
 }
 
 func c07Sess(entry string, n []uint64, f []string) string {
@@ -97,6 +257,10 @@ func c07Sess(entry string, n []uint64, f []string) string {
 			k = "2"
 		}
 		return c07Ok(k, c07TB([]byte(s.Username)))
+	case "bkdhcp6":
+		return c07BacklogDHCPv6(n)
+	case "bkrakick":
+		return c07BacklogRAKick(n)
 	case "fzsess": // fzsess <proto>,<phase> <payload>: the whole receive path of a session, crash check only
 		s, _ := c07Session(ppp.Phase(c07Num(n, 1)))
 		defer s.lcp.FSM().Kill()
